@@ -422,6 +422,14 @@ def body(ctx, kinds=("a1t0s0", "a1t1s0", "a1t0s1", "a1t1s1"), n=None, profiles=N
     for prof in (profiles or []):
         for kind in kinds:
             progs.append(gen_async(ctx.rng, "p%d" % len(progs), kind, profile=prof, **params))
+    # a few programs far beyond the random sizes (9-13 branches, up to 9 steps): size thresholds
+    if n:
+        fr = params.get("fail_rate", (1, 6))
+        pb = {k: v for k, v in params.items() if k not in ("max_depth", "max_branches", "fail_rate")}
+        for _ in range(ctx.n(2, 8)):
+            prof = [1 + ctx.rng.below(9 if ctx.rng.chance(1, 3) else 4) for _ in range(9 + ctx.rng.below(5))]
+            progs.append(gen_async(ctx.rng, "p%d" % len(progs), ctx.rng.pick(list(kinds)), profile=prof,
+                                   fail_rate=(fr[0], fr[1] * 8) if fr[0] else fr, **pb))
     for i, p in enumerate(progs):
         p.base = 1000 * (i + 1)
         if i % 3 == 1 and not p.pid.endswith("_2"):
